@@ -30,7 +30,7 @@ func faultCorpus() []corpusState {
 	files := []Step{wr("a.txt", "one\n"), wr("dir/b.txt", "two\n"), wr("dir/sub/c d.txt", "three\n"), wr("dir/tail/e.txt", "3b\n"), wr("dir-x", "four\n"), wr("zz/y.txt", "last\n")}
 	added := append(append(append([]Step{}, ident...), files...), goit("add", "a.txt", "dir", "dir-x", "zz"))
 	c1 := append(append([]Step{}, added...), goit("commit", "-m", "first"))
-	changed := append(append([]Step{}, c1...), wr("a.txt", "one changed\n"), wr("new/e.txt", "five\n"), Step{Op: "remove", Path: "dir/b.txt"})
+	changed := append(append([]Step{}, c1...), wr("a.txt", "one changed\n"), wr("new/e.txt", "five\n"), wr("new/deep/er/f.txt", "nested\n"), Step{Op: "remove", Path: "dir/b.txt"})
 	staged2 := append(append([]Step{}, changed...), goit("add", "a.txt", "new", "dir/b.txt"))
 	c2 := append(append([]Step{}, staged2...), goit("commit", "-m", "second: with colon"))
 	two := append(append([]Step{}, c2...), goit("branch", "topic"), goit("switch", "-c", "feature"), wr("f.txt", "six\n"), goit("add", "f.txt"), goit("commit", "-m", "third on feature"))
@@ -49,7 +49,7 @@ func faultCorpus() []corpusState {
 		{"one-commit-dirty", changed, [][]string{{"add", "a.txt", "new", "dir/b.txt"}, {"rm", "dir"}, {"rm", "dir-x", "a.txt"}, {"restore", "a.txt", "dir"}, {"branch", "topic"}, {"switch", "-c", "topic"}}},
 		{"second-commit-pending", staged2, [][]string{{"commit", "-m", "second"}, {"restore", "--staged", "a.txt", "new", "dir"}, {"reset", "--mixed", "HEAD@{0}"}, {"reset", "--hard", "HEAD@{0}"}}},
 		{"two-commits", c2, [][]string{{"reset", "--soft", "HEAD@{1}"}, {"reset", "--mixed", "HEAD@{1}"}, {"reset", "--hard", "HEAD@{1}"}, {"branch", "-r", "trunk"}, {"branch", "b2"}}},
-		{"three-branches", two, [][]string{{"switch", "main"}, {"switch", "topic"}, {"branch", "-d", "topic"}, {"branch", "-r", "renamed"}, {"reset", "--hard", "HEAD@{1}"}, {"update-ref", "refs/heads/topic", "@feature"}, {"update-ref", "refs/heads/feature", "@main"}}},
+		{"three-branches", two, [][]string{{"branch", "alpha"}, {"switch", "-c", "aaa"}, {"branch", "zz"}, {"switch", "main"}, {"switch", "topic"}, {"branch", "-d", "topic"}, {"branch", "-r", "renamed"}, {"reset", "--hard", "HEAD@{1}"}, {"update-ref", "refs/heads/topic", "@feature"}, {"update-ref", "refs/heads/feature", "@main"}}},
 		{"after-reset-dirty", afterReset, [][]string{{"restore", "dir", "a.txt"}, {"reset", "--hard", "HEAD@{0}"}, {"add", "a.txt"}, {"rm", "dir-x"}}},
 		{"renamed-branch", renamed, [][]string{{"switch", "old"}, {"branch", "-d", "old"}, {"reset", "--soft", "HEAD@{1}"}, {"branch", "-r", "main"}}},
 		{"emptied-staging-area", emptied, [][]string{{"commit", "-m", "everything removed"}, {"restore", "--staged", "dir"}}},
